@@ -68,7 +68,7 @@ int vnaproperty_import_yaml_from_file(vnaproperty_t **rootptr, FILE *fp,
 		"%s error: empty YAML document", vyml.vyml_filename);
 	goto error;
     }
-    (void)vnaproperty_delete(rootptr, ".");	/* replace existing content */
+    _vnaproperty_delete_all(rootptr);		/* replace existing content */
     if (_vnaproperty_yaml_import(&vyml, rootptr, (void *)root) == -1) {
 	goto error;
     }
